@@ -5,6 +5,9 @@ import Hgxv.Proofs.C16Sample
 import Hgxv.Proofs.C16Relabel
 import Hgxv.Proofs.C16Ext
 import Hgxv.Proofs.C16Deg
+import Hgxv.Proofs.C16Run
+import Hgxv.Model.C16Guard
+import Hgxv.Proofs.C16Trunc
 /-! # C16 — Hy-MMSBM sampler: valid hypergraphs, conditioning respected, seed decides the sequence
 
 Theorems about the model `Hgxv/Model/C16.lean`.  Every statement is for **all oracle values**: all picks of
@@ -1256,3 +1259,348 @@ example : outputStageD [[0, 1], [2], [3, 1, 2], []] [3, 5, 0, 2] none = some [([
 example : outputStageD [[0, 1], [1], [1, 0]] [3, 5, 2] (some [4, 9]) = some [([4, 9], 5)] := by decide
 example : properCfg [[0, 1], [2], [3, 1, 2], []] (truncWeights [3, 5, 0, 2]) = [[0, 1], [3, 1, 2]] := by decide
 
+
+/-! ## second extension round: whole runs without the hypothesis "every hyperedge has at least two nodes"
+
+`Model/C16Run.lean`: `sampleFromHygD` = transform, chain, and per yield the output stage with the nan mean of a degenerate
+hyperedge (`outputStageD`; the quantile tape of a yield has one entry per hyperedge of the chain state).  A run from an
+initial hypergraph with one-node / empty hyperedges is ONE model run; the theorems below have no hypothesis on sizes. -/
+
+/-- on the inputs of the older whole-run theorems (every hyperedge a set of at least two nodes) the new run function is
+the old one - for every tape, also where either refuses (a tape of the wrong length) -/
+theorem C16_run_agrees (labels : List Nat) (edges : Config) (t : OwnTape) (he : AllNodup edges)
+    (h2 : ∀ e ∈ edges, 2 ≤ e.length) : sampleFromHygD labels edges t = sampleFromHyg labels edges t := by
+  unfold sampleFromHygD sampleFromHyg
+  cases ht : edges.mapM (transform labels) with
+  | none => rfl
+  | some cfg =>
+    simp only [Option.bind_some]
+    obtain ⟨t1, t2⟩ := transformAll_spec ht
+    have hn0 : AllNodup cfg := by
+      intro e hec
+      have : e.map (lab labels) ∈ edges := by rw [t1]; exact List.mem_map_of_mem hec
+      exact nodup_of_map_nodup (he _ this)
+    have hc2 : ∀ e ∈ cfg, 2 ≤ e.length := by
+      intro e hec
+      have hm : e.map (lab labels) ∈ edges := by rw [t1]; exact List.mem_map_of_mem hec
+      have := h2 _ hm
+      simpa using this
+    unfold sampleFromConfigD sampleFromConfig
+    cases hm : mcmcRoutine cfg [] t.burn t.thins with
+    | none => rfl
+    | some ys =>
+      simp only [Option.bind_some]
+      obtain ⟨_, c2⟩ := C16_chain_preserves cfg [] t.burn t.thins ys hn0 hm
+      apply outputsOfD_agrees
+      intro y hy e hey
+      obtain ⟨_, _, d3, _⟩ := c2 y hy
+      simp only [List.append_nil] at d3
+      have hmem : e.length ∈ cfg.map List.length := by rw [← d3]; exact List.mem_map_of_mem hey
+      obtain ⟨e0, he0, hl0⟩ := List.mem_map.mp hmem
+      have := hc2 e0 he0
+      omega
+
+/-- `sample(initial_hyg=h)` for EVERY hypergraph `h` of sets (one-node and empty hyperedges included), every `k`, every
+step and quantile tape: the `k`-th yielded hypergraph is well-formed; every hyperedge has at least two nodes, nodes of
+`h`, and the size of a hyperedge of size >= 2 of `h`; no node exceeds its degree in `h` and no size its count in `h`
+(the degenerate hyperedges count in the conditioning); and whenever no two hyperedges of size >= 2 of the chain state
+`y` coincide, every size >= 2 has exactly its count in `h`, no hyperedge of size < 2 is delivered, and the degree of every
+node is its degree among the hyperedges of size >= 2 of `y` - where `y` has node by node the degrees of `h`
+(the difference is the one-node hyperedges the node sits in at that moment). -/
+theorem C16_sample_hyg_all_sizes (labels : List Nat) (edges : Config) (t : OwnTape)
+    (outs : List (List (Hye × Nat))) (hl : labels.Pairwise (· < ·)) (he : AllNodup edges)
+    (h : sampleFromHygD labels edges t = some outs) :
+    outs.length = t.thins.length ∧ ∀ k (hk : k < outs.length),
+      ValidOut outs[k] ∧
+      (∀ p ∈ outs[k], 2 ≤ p.1.length ∧ (∀ x ∈ p.1, x ∈ labels) ∧
+        ∃ e ∈ edges, 2 ≤ e.length ∧ p.1.length = e.length) ∧
+      (∀ x ∈ labels, degOf x (outs[k].map (·.1)) ≤ degOf x edges) ∧
+      (∀ s, sizeCount s (outs[k].map (·.1)) ≤ sizeCount s edges) ∧
+      ∃ y q, t.quantiles[k]? = some q ∧ outputStageD y q (some labels) = some outs[k] ∧
+        (∀ i (hi : i < labels.length), degOf i y = degOf labels[i] edges) ∧
+        (((properCfg y (truncWeights q)).map canon).Nodup →
+          (∀ s, sizeCount s (outs[k].map (·.1)) = if 2 ≤ s then sizeCount s edges else 0) ∧
+          (∀ i (hi : i < labels.length),
+            degOf labels[i] (outs[k].map (·.1)) = degOf i (properCfg y (truncWeights q)))) := by
+  unfold sampleFromHygD at h
+  cases ht : edges.mapM (transform labels) with
+  | none => simp [ht] at h
+  | some cfg =>
+    simp only [ht, Option.bind_some] at h
+    obtain ⟨t1, t2⟩ := transformAll_spec ht
+    have hnd : labels.Nodup := hl.imp (fun hab => Nat.ne_of_lt hab)
+    have hn0 : AllNodup cfg := by
+      intro e hec
+      have : e.map (lab labels) ∈ edges := by rw [t1]; exact List.mem_map_of_mem hec
+      exact nodup_of_map_nodup (he _ this)
+    obtain ⟨ys, hy, hlen, hout⟩ := sampleFromConfigD_spec h
+    obtain ⟨c1, c2⟩ := C16_chain_preserves cfg [] t.burn t.thins ys hn0 hy
+    refine ⟨by omega, ?_⟩
+    intro k hk
+    have hk' : k < ys.length := by omega
+    obtain ⟨q, hq, hql, ho⟩ := hout k hk' hk
+    obtain ⟨d1, d2, d3, d4⟩ := c2 ys[k] (List.getElem_mem hk')
+    simp only [List.append_nil] at d1 d2 d3
+    have hny : AllNodup ys[k] := d4 (by intro e he; simp at he)
+    have hwl : (truncWeights q).length = ys[k].length := by simp [truncWeights, hql]
+    have ho' := ho
+    unfold outputStageD at ho'
+    rw [C16_degenerate_refines _ _ _ hwl] at ho'
+    have hnp : AllNodup (properCfg ys[k] (truncWeights q)) := fun e he => hny e (properCfg_mem he).1
+    obtain ⟨v1, v2, v3, v4, v5⟩ :=
+      C16_output_valid _ _ (some labels) outs[k] hnp (by intro ls hls; cases hls; exact hl) ho'
+    obtain ⟨b1, b2, b3⟩ := C16_output_bounds_labels _ _ labels outs[k] hnd ho'
+    have hpos : ∀ w ∈ properWs ys[k] (truncWeights q), 0 < w := by
+      intro w hw
+      simp only [properWs, properPairs, List.mem_map, List.mem_filter] at hw
+      obtain ⟨p, ⟨hp, _⟩, rfl⟩ := hw
+      exact truncWeights_pos q p.2 (List.of_mem_zip hp).2
+    have hdeg : ∀ i (hi : i < labels.length), degOf labels[i] edges = degOf i cfg := by
+      intro i hi
+      have e1 : labels[i] = lab labels i := by simp [lab, List.getElem?_eq_getElem hi]
+      rw [e1, t1]
+      exact degOf_map_lab hnd t2 hi
+    have hsz : ∀ s, sizeCount s edges = sizeCount s cfg := by
+      intro s; rw [t1]; exact sizeCount_map_lab labels cfg s
+    refine ⟨⟨v1, fun p hp => ⟨v2 p hp, v3 p hp⟩⟩, ?_, ?_, ?_, ys[k], q, hq, ho, ?_, ?_⟩
+    · intro p hp
+      obtain ⟨e, hey, hpe⟩ := v4 p hp
+      obtain ⟨hey', he2⟩ := properCfg_mem hey
+      have hmem : e.length ∈ cfg.map List.length := by rw [← d3]; exact List.mem_map_of_mem hey'
+      obtain ⟨e0, he0, hl0⟩ := List.mem_map.mp hmem
+      refine ⟨by omega, fun x hx => v5 p hp x hx, e0.map (lab labels),
+        by rw [t1]; exact List.mem_map_of_mem he0, ?_, ?_⟩
+      · rw [List.length_map]; omega
+      · rw [List.length_map]; omega
+    · intro x hx
+      obtain ⟨i, hi, hxi⟩ := List.getElem_of_mem hx
+      subst hxi
+      rw [hdeg i hi, ← d1 i]
+      exact Nat.le_trans (b1 i hi) (degOf_proper_le i _ _)
+    · intro s
+      rw [hsz s, ← d2 s]
+      have := b2 s
+      rw [sizeCount_proper s _ _ hwl] at this
+      split at this <;> omega
+    · intro i hi
+      rw [hdeg i hi, d1 i]
+    · intro hndy
+      obtain ⟨e1, e2⟩ := b3 hpos hndy
+      refine ⟨?_, e1⟩
+      intro s
+      rw [e2 s, sizeCount_proper s _ _ hwl, hsz s, d2 s]
+
+-- non-vacuity: a one-node hyperedge that the chain moves around (step 0: hyperedges 0 and 1 exchange nodes), the empty
+-- hyperedge; the degenerate hyperedges are dropped whatever their quantiles, a quantile 0 is clamped to 1
+example : sampleFromHygD [4, 9, 11] [[4, 9], [9], [11, 4], []] ⟨[], [], [[]], [[3, 5, 0, 2]]⟩ =
+    some [[([4, 9], 3), ([4, 11], 1)]] := by decide
+example : sampleFromHygD [4, 9, 11] [[4, 9], [9], [11, 4]] ⟨[], [], [[]], [[3, 5]]⟩ = none := by decide
+example : sampleFromHygD [10, 20, 30, 40, 50] [[10, 20, 30], [30, 40], [20, 50]]
+    ⟨[], [⟨0, 1, [1, 3], true⟩], [[⟨2, 1, [0, 4], true⟩], []], [[1, 2, 2], [1, 0, 3]]⟩ =
+    sampleFromHyg [10, 20, 30, 40, 50] [[10, 20, 30], [30, 40], [20, 50]]
+    ⟨[], [⟨0, 1, [1, 3], true⟩], [[⟨2, 1, [0, 4], true⟩], []], [[1, 2, 2], [1, 0, 3]]⟩ := by decide
+
+/-! ## second extension round: the argument checks before `_match_sequences` (`Model/C16Guard.lean`) -/
+
+/-- characterisation of the error path: a call through `_sampling_from_sequences` gets past the two `assert`s iff the
+degree sequence has one entry per node of the model and no size of the size sequence exceeds the number of nodes;
+otherwise the FIRST failing check in the order of the code is the one that raises -/
+theorem C16_guard_accepts_iff (N : Nat) (degSeq : List Nat) (dimSeq : List (Nat × Nat)) :
+    (argGuard N degSeq dimSeq = .ok ↔ degSeq.length = N ∧ ∀ p ∈ dimSeq, p.1 ≤ N) ∧
+    (argGuard N degSeq dimSeq = .badShape ↔ degSeq.length ≠ N) ∧
+    (argGuard N degSeq dimSeq = .badDim ↔ degSeq.length = N ∧ ∃ p ∈ dimSeq, N < p.1) := by
+  unfold argGuard
+  by_cases hl : degSeq.length = N
+  · by_cases hd : dimSeq.all (fun p => decide (p.1 ≤ N)) = true
+    · rw [if_pos hl, if_pos hd]
+      have hall : ∀ p ∈ dimSeq, p.1 ≤ N := by
+        intro p hp
+        have := List.all_eq_true.mp hd p hp
+        simpa using this
+      refine ⟨⟨fun _ => ⟨hl, hall⟩, fun _ => rfl⟩, ⟨(fun h => by cases h), fun h => absurd hl h⟩, ?_⟩
+      constructor
+      · intro h; cases h
+      · rintro ⟨_, p, hp, hlt⟩
+        have := hall p hp
+        omega
+    · rw [if_pos hl, if_neg hd]
+      have hex : ∃ p ∈ dimSeq, N < p.1 := by
+        apply Decidable.byContradiction
+        intro hne
+        apply hd
+        apply List.all_eq_true.mpr
+        intro p hp
+        apply decide_eq_true
+        apply Decidable.byContradiction
+        intro hn
+        exact hne ⟨p, hp, by omega⟩
+      refine ⟨⟨(fun h => by cases h), ?_⟩, ⟨(fun h => by cases h), fun h => absurd hl h⟩, ⟨fun _ => ⟨hl, hex⟩, fun _ => rfl⟩⟩
+      rintro ⟨_, hall⟩
+      obtain ⟨p, hp, hlt⟩ := hex
+      have := hall p hp
+      omega
+  · rw [if_neg hl]
+    refine ⟨⟨(fun h => by cases h), fun h => absurd h.1 hl⟩, ⟨fun _ => hl, fun _ => rfl⟩, ⟨(fun h => by cases h), fun h => absurd h.1 hl⟩⟩
+
+/-- a call refused by the argument checks delivers nothing and leaves `matching_sequences` exactly as it was - a stale
+`True` of an earlier call included (contrast `C16_raise_state`: an exception INSIDE `_match_sequences` never leaves
+`True`); a call that passes them is the call of the older model, to which every older theorem applies; and
+`sample(initial_hyg=...)` is never refused here -/
+theorem C16_guard_call (N : Nat) (s : Sampler) (c : CallX) :
+    (accepted N c = false → callStepG N s c = (s, none)) ∧
+    (accepted N c = true → callStepG N s c = callStepX s c) ∧
+    (∀ l e, c.args = .hyg l e → accepted N c = true) ∧
+    (∀ d m, c.args = .seqs d m → (accepted N c = true ↔ d.length = N ∧ ∀ p ∈ m, p.1 ≤ N)) := by
+  refine ⟨?_, ?_, ?_, ?_⟩
+  · intro h; unfold callStepG; rw [h]; rfl
+  · intro h; unfold callStepG; rw [h]; rfl
+  · intro l e h; unfold accepted seqsOf; rw [h]
+  · intro d m h
+    unfold accepted seqsOf
+    rw [h]
+    simp only [decide_eq_true_eq]
+    exact (C16_guard_accepts_iff N d m).1
+
+/-- sessions with refused calls anywhere: a refused call is invisible to the rest of the session (the session continues
+as if the call had not been made), an accepted call acts as in the session model without the checks -/
+theorem C16_guard_session (N : Nat) (s : Sampler) (c : CallX) (cs : List CallX) :
+    (accepted N c = false → runSessionG N s (c :: cs) = (none, s.flag) :: runSessionG N s cs) ∧
+    (accepted N c = true →
+      runSessionG N s (c :: cs) = ((callStepX s c).2, (callStepX s c).1.flag) :: runSessionG N (callStepX s c).1 cs) ∧
+    ((∀ c' ∈ c :: cs, accepted N c' = true) → runSessionG N s (c :: cs) = runSessionX s (c :: cs)) := by
+  refine ⟨?_, ?_, ?_⟩
+  · intro h
+    have := (C16_guard_call N s c).1 h
+    simp only [runSessionG, this]
+  · intro h
+    have := (C16_guard_call N s c).2.1 h
+    simp only [runSessionG, this]
+  · intro hall
+    generalize c :: cs = l at hall
+    induction l generalizing s with
+    | nil => rfl
+    | cons a l ih =>
+      have ha := (C16_guard_call N s a).2.1 (hall a List.mem_cons_self)
+      simp only [runSessionG, runSessionX, ha]
+      rw [ih _ (fun c' hc' => hall c' (List.mem_cons_of_mem _ hc'))]
+
+/-- accepted `sample(deg_seq=d, dim_seq=m)` on a model with `N >= 2` nodes: every node of every delivered hyperedge is a
+node of the model and no hyperedge has more than `N` nodes (the accepted size sequence has no larger size) -/
+theorem C16_guard_accepted_sizes (N : Nat) (hN : 2 ≤ N) (s : Sampler) (c : CallX) (d : List Nat) (m : List (Nat × Nat))
+    (hc : c.args = .seqs d m) (ha : accepted N c = true) (r : CallOut) (hr : (callStepG N s c).2 = some r) :
+    ∀ k (hk : k < r.outs.length), ∀ p ∈ r.outs[k], (∀ x ∈ p.1, x < N) ∧ 2 ≤ p.1.length ∧ p.1.length ≤ N := by
+  obtain ⟨hlen, hdim⟩ := ((C16_guard_call N s c).2.2.2 d m hc).mp ha
+  rw [(C16_guard_call N s c).2.1 ha, C16_callX_result, hc] at hr
+  simp only at hr
+  cases hs : sampleFromSeqs d m true true [] c.own with
+  | none => simp [hs] at hr
+  | some fo =>
+    obtain ⟨flag, outs⟩ := fo
+    simp only [hs, Option.map_some, Option.some.injEq] at hr
+    subst hr
+    obtain ⟨_, hall⟩ := C16_sample_seqs d m true true [] c.own flag outs (by intro e he; simp at he) hs
+    intro k hk p hp
+    obtain ⟨_, h2, _⟩ := hall k hk
+    obtain ⟨a1, a2, a3⟩ := h2 p hp
+    refine ⟨fun x hx => by have := a1 x hx; omega, a2, a3 N hN hdim⟩
+
+-- non-vacuity: the three verdicts; a refused call between two calls of a session started with a stale `True`
+example : argGuard 3 [1, 1, 2] [(2, 2), (3, 0)] = .ok ∧ argGuard 3 [1, 1] [(2, 1)] = .badShape ∧
+    argGuard 3 [1, 1, 2] [(2, 1), (4, 1)] = .badDim ∧ argGuard 3 [1, 1, 2, 0] [(4, 1)] = .badShape := by decide
+example : (runSessionG 3 ⟨some true⟩ [⟨.seqs [1, 1, 2] [(4, 1)], ⟨[], [], [], []⟩, ⟨[], [], []⟩⟩,
+    ⟨.seqs [1, 1] [(2, 1)], ⟨[], [], [], []⟩, ⟨[], [], []⟩⟩]).map (·.2) = [some true, some true] := by decide
+
+/-! ## second extension round: the contract of `sample_truncated_poisson` at model level (`Model/C16Trunc.lean`)
+
+`Y = X | X > 0` by the inverse-cdf scheme `p = u + (1 - u) exp(-lambd)`, `max(ppf(p), 1)`, over every linearly ordered field;
+`e` = `exp(-lambd)` (any number in `(0, 1)` for a positive rate), `cdf` = the Poisson cdf as a parameter. -/
+
+/-- the contract: every delivered draw is at least 1 - for EVERY uniform, every `e`, every cdf table, clipped or not -/
+theorem C16_trunc_contract {α : Type} [Field α] [LinearOrder α] [IsStrictOrderedRing α]
+    (cdf : Nat → α) (u e pmax : α) (fuel k : Nat) (h : truncDraw cdf u e pmax fuel = some k) : 1 ≤ k := by
+  unfold truncDraw at h
+  cases hq : ppfFrom cdf (truncP u e pmax) fuel 0 with
+  | none => simp [hq] at h
+  | some q =>
+    simp only [hq, Option.map_some, Option.some.injEq] at h
+    omega
+
+/-- where the clamp `np.maximum(., 1)` is needed in exact arithmetic: for a positive rate (`e < 1`) and a uniform in
+`[0, 1)` the quantile of `p = u + (1 - u) e` is 0 exactly when `u = 0` (then `p = P(X = 0)`: without the clamp the
+draw would be 0 - defect D44 of the unclamped code); for every `u > 0` the quantile itself is already >= 1;
+and `p < 1` always (the quantile is finite) -/
+theorem C16_trunc_clamp_only_at_zero {α : Type} [Field α] [LinearOrder α] [IsStrictOrderedRing α]
+    (cdf : Nat → α) (u e : α) (fuel q : Nat) (hu0 : 0 ≤ u) (hu1 : u < 1) (he1 : e < 1) (h0 : cdf 0 = e)
+    (h : ppfFrom cdf (u + (1 - u) * e) fuel 0 = some q) :
+    (q = 0 ↔ u = 0) ∧ u + (1 - u) * e < 1 := by
+  obtain ⟨_, _, hle, hleast⟩ := ppfFrom_spec cdf _ fuel 0 q h
+  have h1 : 0 < 1 - e := by linarith
+  refine ⟨⟨?_, ?_⟩, by nlinarith⟩
+  · intro hq
+    rw [hq, h0] at hle
+    have : u * (1 - e) ≤ 0 := by nlinarith
+    have : u ≤ 0 := by
+      rcases le_or_gt u 0 with h' | h'
+      · exact h'
+      · have := mul_pos h' h1; linarith
+    exact le_antisymm this hu0
+  · intro hu
+    apply Decidable.byContradiction
+    intro hq
+    apply hleast 0 (Nat.le_refl 0) (by omega)
+    rw [h0, hu]
+    simp
+
+/-- the law of the draw (when the clip `np.minimum(p, nextafter(1, 0))` is not active): for a monotone cdf with
+`cdf 0 = e < 1`, the draw is `k >= 1` exactly for the uniforms in
+`((cdf (k-1) - e) / (1 - e), (cdf k - e) / (1 - e)]` (from 0 for `k = 1`) - an interval of length
+`(cdf k - cdf (k-1)) / (1 - cdf 0) = P(X = k | X > 0)`: the truncated Poisson law, nothing else -/
+theorem C16_trunc_law {α : Type} [Field α] [LinearOrder α] [IsStrictOrderedRing α]
+    (cdf : Nat → α) (hmono : ∀ i j, i ≤ j → cdf i ≤ cdf j) (u e pmax : α) (fuel k : Nat)
+    (he1 : e < 1) (hp : u + (1 - u) * e ≤ pmax) (hk : 1 ≤ k) (hf : k < fuel) :
+    truncDraw cdf u e pmax fuel = some k ↔
+      (u ≤ (cdf k - e) / (1 - e) ∧ (2 ≤ k → (cdf (k - 1) - e) / (1 - e) < u)) := by
+  have hP : truncP u e pmax = u + (1 - u) * e := by unfold truncP; rw [if_pos hp]
+  unfold truncDraw
+  rw [hP]
+  constructor
+  · intro h
+    cases hq : ppfFrom cdf (u + (1 - u) * e) fuel 0 with
+    | none => simp [hq] at h
+    | some q =>
+      simp only [hq, Option.map_some, Option.some.injEq] at h
+      obtain ⟨_, _, hle, hleast⟩ := ppfFrom_spec cdf _ fuel 0 q hq
+      have hqk : q ≤ k := by omega
+      refine ⟨(truncP_le_iff u e _ he1).mp (le_trans hle (hmono q k hqk)), ?_⟩
+      intro h2
+      have hq' : q = k := by omega
+      have := hleast (k - 1) (Nat.zero_le _) (by omega)
+      rw [truncP_le_iff u e _ he1] at this
+      exact lt_of_not_ge this
+  · rintro ⟨hle, hgt⟩
+    have hle' := (truncP_le_iff u e _ he1).mpr hle
+    obtain ⟨q, hq⟩ := ppfFrom_complete cdf _ fuel 0 k (Nat.zero_le _) (by omega) hle'
+    obtain ⟨_, _, hqle, hleast⟩ := ppfFrom_spec cdf _ fuel 0 q hq
+    rw [hq]
+    simp only [Option.map_some, Option.some.injEq]
+    have hqk : q ≤ k := by
+      apply Decidable.byContradiction
+      intro hn
+      exact hleast k (Nat.zero_le _) (by omega) hle'
+    by_cases h2 : 2 ≤ k
+    · have hlt := hgt h2
+      have : ¬ (u + (1 - u) * e ≤ cdf (k - 1)) := by
+        rw [truncP_le_iff u e _ he1]; exact not_le_of_gt hlt
+      have : q = k := by
+        apply Decidable.byContradiction
+        intro hne
+        exact this (le_trans hqle (hmono q (k - 1) (by omega)))
+      omega
+    · omega
+
+-- non-vacuity (a table with cdf 0 = e = 1/4): u = 1/2 gives p = 5/8, quantile 2; u = 0 gives quantile 0, draw 1;
+-- a clipped p; a quantile beyond the table
+example : truncDrawTab [1/4, 1/2, 3/4, 1] (1/2) (1/4) (99/100) = some 2 := by decide +kernel
+example : truncDrawTab [1/4, 1/2, 3/4, 1] 0 (1/4) (99/100) = some 1 := by decide +kernel
+example : ppfFrom (fun k => [(1/4 : Rat), 1/2, 3/4, 1].getD k 0) (1/4) 4 0 = some 0 := by decide +kernel
+example : truncDrawTab [1/4, 1/2, 3/4] (9/10) (1/4) (99/100) = none := by decide +kernel
